@@ -222,7 +222,7 @@ fn check(ctx: &Ctx, c: &Case) -> PResult {
 }
 
 pub fn props() -> Vec<(Box<dyn PropDyn>, u32, u32)> {
-    vec![(Box::new(Prop::new("masking", case_strategy, check).shrink(80)), 320, 5000)]
+    vec![(Box::new(Prop::new("masking", case_strategy, check).shrink(80)), 800, 8000)]
 }
 
 pub fn describe(ctx: &Ctx) {
